@@ -195,7 +195,7 @@ def label_text(kind, i):
     if kind in ('range', 'period'):
         return str(1990 + i)
     if kind == 'liststr':
-        return f'p{i}'
+        return f'p {i} Q'          # labels with inner blanks
     return str(2000 + 5 * (i - 10))     # ndarray, pdindex: non-consecutive integer labels
 
 
@@ -206,7 +206,7 @@ def make_span(kind, ids):
         if kind == 'range':
             span = range(1990 + ids[0], 1990 + ids[-1] + 1)     # non-zero origin
         elif kind == 'liststr':
-            span = [f'p{i}' for i in ids]
+            span = [f'p {i} Q' for i in ids]
         elif kind == 'ndarray':
             span = np.array([2000 + 5 * (i - 10) for i in ids])
         elif kind == 'pdindex':
